@@ -1,333 +1,199 @@
-(* Staker/ProofsEpoch.v — the epoch-boundary step (housekeeping: renewals, the scheduled exit, evictions, activations;
-   the PoA->PoS transition) preserves all invariants. *)
+(* Staker/ProofsCustody.v — custody: what a validation holds (locked + queued + cooldown + withdrawable) changes only by what
+   its endorser pays in (AddValidation, IncreaseStake) and is paid out (WithdrawStake); a delegation's stake only by
+   AddDelegation / WithdrawDelegation.  Per-operation lemmas for the user operations. *)
 From Coq Require Import List NArith Bool Lia.
 From Coq Require Import ZifyN ZifyNat ZifyBool.
 From Verif Require Import Common.Util Staker.Model Staker.Base Staker.Lists Staker.Inv Staker.RList Staker.Inv2
-  Staker.ProofsStep Staker.ProofsUser Staker.ProofsUser2.
+  Staker.ProofsStep Staker.ProofsUser Staker.ProofsUser2 Staker.ProofsHist.
 Import ListNotations.
 Open Scope N_scope.
 
 Opaque e18 two64.
 
-(* ------------------------------------------------------------------ Inv2 without the total-weight equation *)
+Definition held_by (s : st) (a : N) : N := match getv s a with Some v => held v | None => 0 end.
+Definition stake_of (s : st) (id : N) : N := match get (dels s) id with Some d => d_stake d | None => 0 end.
 
-Definition fixw (s : st) : st := w_glob (g_lv s) (sumf v_weight (vals s)) (g_q s) (g_wd s) (g_cd s) s.
-Definition Inv2' (s : st) : Prop := Inv2 (fixw s).
+Lemma held_by_vals s s' : vals s' = vals s -> forall b, held_by s' b = held_by s b.
+Proof. intros E b. unfold held_by, getv. rewrite E. reflexivity. Qed.
 
-Lemma Inv2_split s : Inv2 s <-> Inv2' s /\ g_lw s = sumf v_weight (vals s).
+Lemma held_by_setv a v s b : held_by (setv a v s) b = if a =? b then held v else held_by s b.
 Proof.
+  unfold held_by. destruct (a =? b) eqn:E.
+  - apply N.eqb_eq in E. subst. rewrite getv_setv_same. reflexivity.
+  - apply N.eqb_neq in E. rewrite getv_setv_other; auto.
+Qed.
+
+Lemma held_set_prev x v : held (set_prev x v) = held v. Proof. reflexivity. Qed.
+Lemma held_set_next x v : held (set_next x v) = held v. Proof. reflexivity. Qed.
+
+Lemma core_held v v' : core v = core v' -> held v = held v'.
+Proof. intros H. inversion H. unfold held. congruence. Qed.
+
+Lemma held_by_setv_same_held a v v' s : getv s a = Some v -> held v' = held v -> forall b, held_by (setv a v' s) b = held_by s b.
+Proof.
+  intros Hv E b. rewrite held_by_setv. destruct (a =? b) eqn:Eb; auto. apply N.eqb_eq in Eb. subst. unfold held_by. rewrite Hv. auto.
+Qed.
+
+Lemma held_by_put_ls w l s b : held_by (put_ls w l s) b = held_by s b.
+Proof. destruct w; reflexivity. Qed.
+
+Lemma held_by_ren_only s s' : ren_only s s' -> forall b, held_by s' b = held_by s b.
+Proof. intros E. apply held_by_vals. rewrite E. reflexivity. Qed.
+
+(* the list operations: other records keep what they hold; the record itself is either left as stored (remove's early
+   return) or replaced by the given entry *)
+Lemma ll_remove_held w a e s s1 e1 :
+  ll_remove w a e s = Ok (s1, e1) ->
+  (forall b, b <> a -> held_by s1 b = held_by s b) /\ (held_by s1 a = held_by s a \/ held_by s1 a = held e).
+Proof.
+  unfold ll_remove. intros H.
+  destruct (negb (is_linked e) && (negb (oeqb (l_head (get_ls w s)) (Some a)) || negb (oeqb (l_tail (get_ls w s)) (Some a)))).
+  - inversion H; subst. auto.
+  - bstep H sa Ha. bstep H sb Hb. bstep H u Hu. inversion H; subst s1 e1; clear H.
+    assert (A : forall b, held_by sa b = held_by s b).
+    { destruct (v_prev e) as [p|].
+      - bstep Ha pe Hpe. apply of_opt_ok in Hpe. inversion Ha; subst. apply held_by_setv_same_held with (v := pe); auto.
+      - inversion Ha; subst. intros b. apply held_by_put_ls. }
+    assert (B : forall b, held_by sb b = held_by sa b).
+    { destruct (v_next e) as [n|].
+      - bstep Hb ne Hne. apply of_opt_ok in Hne. inversion Hb; subst. apply held_by_setv_same_held with (v := ne); auto.
+      - inversion Hb; subst. intros b. apply held_by_put_ls. }
+    split.
+    + intros b Hne. rewrite held_by_setv. apply N.eqb_neq in Hne. rewrite N.eqb_sym in Hne. rewrite Hne.
+      rewrite held_by_put_ls, B, A. reflexivity.
+    + right. rewrite held_by_setv, N.eqb_refl. reflexivity.
+Qed.
+
+Lemma ll_add_held w a e s s1 :
+  ll_add w a e s = Ok s1 -> (forall b, b <> a -> held_by s1 b = held_by s b) /\ held_by s1 a = held e.
+Proof.
+  unfold ll_add. intros H. bstep H sb Hb. inversion H; subst s1; clear H.
+  assert (B : forall b, held_by sb b = held_by s b).
+  { destruct (l_tail (get_ls w s)) as [t|].
+    - bstep Hb te Hte. apply of_opt_ok in Hte. inversion Hb; subst. intros b.
+      rewrite (held_by_setv_same_held t te _ _ Hte (held_set_next _ _)). apply held_by_put_ls.
+    - inversion Hb; subst. intros b. rewrite !held_by_put_ls. reflexivity. }
   split.
-  - intros H. split; [|apply (j_lw _ H)]. apply (Inv2_ext s); auto. unfold fixw. repeat split. cbn. symmetry. apply (j_lw _ H).
-  - intros [H E]. apply (Inv2_ext (fixw s)); auto. unfold fixw. repeat split. cbn. auto.
+  - intros b Hne. rewrite held_by_setv. apply N.eqb_neq in Hne. rewrite N.eqb_sym in Hne. rewrite Hne. rewrite held_by_put_ls. apply B.
+  - rewrite held_by_setv, N.eqb_refl. reflexivity.
 Qed.
 
-Lemma Inv2'_ext s s' :
-  vals s' = vals s -> aggs s' = aggs s -> dels s' = dels s -> rh s' = rh s -> rt s' = rt s -> rprev s' = rprev s ->
-  rnext s' = rnext s -> exits s' = exits s -> blk s' = blk s -> Inv2' s -> Inv2' s'.
+(* ------------------------------------------------------------------ what an operation pays in / out *)
+
+Definition paid_in (c : cfg) (s : st) (o : op) (a : N) : N :=
+  match o with
+  | OAddValidation a' _ _ vet | OIncrease a' _ vet => if (a' =? a) && (fst (answer c s o) =? 0) then vet else 0
+  | _ => 0
+  end.
+Definition paid_out (c : cfg) (s : st) (o : op) (a : N) : N :=
+  match o with OWithdraw a' _ => if a' =? a then snd (answer c s o) else 0 | _ => 0 end.
+
+Definition deleg_in (c : cfg) (s : st) (o : op) (id : N) : N :=
+  match o with
+  | OAddDeleg _ vet _ => if (fst (answer c s o) =? 0) && (snd (answer c s o) =? id) then vet else 0
+  | _ => 0
+  end.
+Definition deleg_out (c : cfg) (s : st) (o : op) (id : N) : N :=
+  match o with OWithdrawDeleg id' => if id' =? id then snd (answer c s o) else 0 | _ => 0 end.
+
+Lemma money_only_held s s' : money_only s s' -> forall b, held_by s' b = held_by s b.
+Proof. intros [q [wd [cd [e [b ->]]]]]. apply held_by_vals. reflexivity. Qed.
+Lemma money_only_dels s s' : money_only s s' -> dels s' = dels s.
+Proof. intros [q [wd [cd [e [b ->]]]]]. reflexivity. Qed.
+
+(* ------------------------------------------------------------------ user operations, success case *)
+
+Lemma add_validation_held c a e p vet s s' x :
+  add_validation c a e p vet (pay_in (vet * e18) s) = Ok (s', x) ->
+  forall b, held_by s' b = held_by s b + (if a =? b then vet else 0).
 Proof.
-  intros E1 E2 E3 E4 E5 E6 E7 E8 E9 H. unfold Inv2' in *. apply (Inv2_ext (fixw s)); auto.
-  unfold fixw. repeat split; cbn; auto. rewrite E1. reflexivity.
+  intros H b. unfold add_validation in H.
+  bstep H u1 G1. bstep H u2 G2. bstep H u3 G3. bstep H u4 G4. bstep H u5 G5. bstep H s1 Hadd. bstep H u6 G6.
+  inversion H; subst s' x; clear H. gfacts.
+  assert (Hnone : getv s a = None).
+  { change (getv (pay_in (vet * e18) s) a) with (getv s a) in G4. destruct (getv s a); [discriminate|reflexivity]. }
+  destruct (ll_add_held _ _ _ _ _ Hadd) as [Ho Ha].
+  change (held_by (add_queued vet s1) b) with (held_by s1 b).
+  destruct (a =? b) eqn:E.
+  - apply N.eqb_eq in E. subst b. rewrite Ha. unfold held_by. rewrite Hnone. unfold held. cbn. lia.
+  - apply N.eqb_neq in E. rewrite Ho by auto. change (held_by (pay_in (vet * e18) s) b) with (held_by s b). lia.
 Qed.
 
-(* the record and the aggregation of an ACTIVE validator are rewritten (renewal): status, exit block, cooldown kept;
-   the new weight is consistent with the new locked stake and the new aggregation *)
-Lemma Inv2'_active_upd s a v v' x :
-  Inv2' s -> getv s a = Some v -> v_status v = StatusActive ->
-  v_status v' = v_status v -> v_exit v' = v_exit v -> v_cooldown v' = v_cooldown v ->
-  v_weight v' = calc_weight (v_locked v') (v_multiplier v') + a_lw x -> v_punlock v' + 1 <= v_locked v' ->
-  Inv2' (set_agg a x (setv a v' s)).
+Lemma increase_stake_held a e vet s s' x :
+  increase_stake a e vet (pay_in (vet * e18) s) = Ok (s', x) ->
+  forall b, held_by s' b = held_by s b + (if a =? b then vet else 0).
 Proof.
-  unfold Inv2'. intros [H1 H2 H3 H4 H5 H6 H7 H8 H9 H10 H11] Hv Hact Es Ex Ec Ew Ep.
-  set (s' := set_agg a x (setv a v' s)).
-  assert (Gv0 : forall b, getv (fixw s) b = getv s b) by reflexivity.
-  assert (Gv : forall b y, getv (fixw s') b = Some y -> (b = a /\ y = v') \/ (b <> a /\ getv s b = Some y)).
-  { intros b y Hy. change (getv (fixw s') b) with (getv (setv a v' s) b) in Hy. destruct (N.eq_dec a b) as [<-|Hne].
-    - rewrite getv_setv_same in Hy. inversion Hy; auto.
-    - rewrite getv_setv_other in Hy by auto. right; auto. }
-  assert (Ga : forall b, get_agg (fixw s') b = if a =? b then x else get_agg s b).
-  { intros b. change (get_agg (fixw s') b) with (get_agg (set_agg a x (setv a v' s)) b). rewrite get_agg_set_agg2. reflexivity. }
-  constructor.
-  - intros b Hn. rewrite Ga. destruct (a =? b) eqn:E.
-    + apply N.eqb_eq in E. subst b. exfalso. apply (Hn v'); [|congruence].
-      change (getv (fixw s') a) with (getv (setv a v' s) a). apply getv_setv_same.
-    + apply N.eqb_neq in E. apply (H1 b). intros y Hy. apply (Hn y).
-      change (getv (fixw s') b) with (getv (setv a v' s) b). rewrite getv_setv_other by auto. exact Hy.
-  - intros b y Hy Hs. destruct (Gv b y Hy) as [[-> ->]|[Hne Hb]]; [|apply (H2 b y Hb Hs)].
-    rewrite Ec. apply (H2 a v Hv). congruence.
-  - destruct H3 as [lr [R A]]. exists lr. split; [apply (RWF_ext (fixw s) _ lr); try reflexivity; exact R|].
-    intros b Hb. destruct (A b Hb) as [y [Hy Hs]]. change (getv (fixw s') b) with (getv (setv a v' s) b).
-    destruct (N.eq_dec a b) as [<-|Hne].
-    + exists v'. rewrite getv_setv_same. split; auto. congruence.
-    + exists y. rewrite getv_setv_other by auto. auto.
-  - intros b c Hg Hc Hb. destruct (H4 b c Hg Hc Hb) as [y [Hy [Hs He]]].
-    change (getv (fixw s') c) with (getv (setv a v' s) c). destruct (N.eq_dec a c) as [<-|Hne].
-    + rewrite Gv0, Hv in Hy. inversion Hy; subst y. exists v'. rewrite getv_setv_same. repeat split; congruence.
-    + exists y. rewrite getv_setv_other by auto. auto.
-  - reflexivity.
-  - intros b y Hy Hs. rewrite Ga. destruct (Gv b y Hy) as [[-> ->]|[Hne Hb]].
-    + rewrite N.eqb_refl. auto.
-    + assert (E : (a =? b) = false) by (apply N.eqb_neq; auto). rewrite E. apply (H6 b y Hb Hs).
-  - intros b y Hy Hs. destruct (Gv b y Hy) as [[-> ->]|[Hne Hb]]; [congruence|apply (H7 b y Hb Hs)].
-  - intros b y Hy Hs. destruct (Gv b y Hy) as [[-> ->]|[Hne Hb]].
-    + exfalso. rewrite Es, Hact in Hs. discriminate.
-    + rewrite Ga. assert (E : (a =? b) = false) by (apply N.eqb_neq; auto). rewrite E. apply (H8 b y Hb Hs).
-  - intros b Hb. rewrite Ga. change (getv (fixw s') b) with (getv (setv a v' s) b) in Hb. destruct (N.eq_dec a b) as [<-|Hne].
-    + rewrite getv_setv_same in Hb. discriminate.
-    + assert (E : (a =? b) = false) by (apply N.eqb_neq; auto). rewrite E. rewrite getv_setv_other in Hb by auto. apply (H9 b Hb).
-  - intros id d Hin. specialize (H10 id d Hin). change (getv (fixw s') (d_val d)) with (getv (setv a v' s) (d_val d)).
-    destruct (N.eq_dec a (d_val d)) as [<-|Hne]; [rewrite getv_setv_same; discriminate|rewrite getv_setv_other by auto; exact H10].
-  - intros b y Hy. destruct (Gv b y Hy) as [[-> ->]|[Hne Hb]]; [rewrite Es; apply (H11 a v Hv)|apply (H11 b y Hb)].
+  intros H b. unfold increase_stake in H.
+  bstep H v Hv. apply get_or_revert_ok in Hv. change (getv s a = Some v) in Hv.
+  bstep H u1 G1. bstep H u2 G2. bstep H u3 G3. bstep H u4 G4. bstep H u5 G5. bstep H u6 G6.
+  inversion H; subst s' x; clear H.
+  change (held_by (add_queued vet (rl_add a (setv a (set_queued (v_queued v + vet) v) (pay_in (vet * e18) s)))) b)
+    with (held_by (rl_add a (setv a (set_queued (v_queued v + vet) v) (pay_in (vet * e18) s))) b).
+  rewrite (held_by_ren_only _ _ (rl_add_only a _)). rewrite held_by_setv.
+  destruct (a =? b) eqn:E.
+  - apply N.eqb_eq in E. subst b. unfold held_by. rewrite Hv. unfold held. cbn. lia.
+  - change (held_by (pay_in (vet * e18) s) b) with (held_by s b). lia.
 Qed.
 
-(* ------------------------------------------------------------------ the renewal loop *)
-
-Record LoopInv (acc : renewal) (s : st) (la lq : list N) : Prop := mkLoop {
-  li_wf : WF s la lq; li_a : InvA s; li_2 : Inv2' s;
-  li_lv : g_lv s + r_inc_v acc = sumf v_locked (vals s) + sumf a_lv (aggs s) + r_dec_v acc;
-  li_q : g_q s = sumf v_queued (vals s) + sumf a_pv (aggs s) + r_qdec acc;
-  li_cd : g_cd s = sumf v_cooldown (vals s);
-  li_wd : g_wd s + sumf a_lv (aggs s) + sumf a_pv (aggs s) + r_dec_v acc = sumf v_withdrawable (vals s) + sumf d_stake (dels s);
-  li_eff : eff s = (g_lv s + g_q s + g_wd s + g_cd s) * e18;
-  li_bal : eff s <= bal s;
-  li_ctr : forall id d, get (dels s) id = Some d -> id <= del_ctr s;
-  li_lw : g_lw s + r_inc_w acc = sumf v_weight (vals s) + r_dec_w acc;
-  li_iq : r_inc_v acc = r_qdec acc }.
-
-Lemma renewal_add_ok r o r' : renewal_add r o = Ok r' ->
-  r_inc_v r' = r_inc_v r + r_inc_v o /\ r_inc_w r' = r_inc_w r + r_inc_w o /\ r_dec_v r' = r_dec_v r + r_dec_v o /\
-  r_dec_w r' = r_dec_w r + r_dec_w o /\ r_qdec r' = r_qdec r + r_qdec o.
+Lemma decrease_stake_held a e vet s s' x :
+  decrease_stake a e vet s = Ok (s', x) -> forall b, held_by s' b = held_by s b.
 Proof.
-  unfold renewal_add. intros H. bstep H i Hi. destruct i as [iv iw]. bstep H d Hd. destruct d as [dv dw]. bstep H q Hq.
-  inversion H; subst; cbn. apply ws_add_ok in Hi, Hd. cbn in Hi, Hd. gfacts. intuition.
+  intros H b. unfold decrease_stake in H.
+  bstep H u0 G0. bstep H v Hv. apply get_or_revert_ok in Hv.
+  bstep H u1 G1. bstep H u2 G2. bstep H u3 G3. bstep H u4 G4. bstep H u5 G5. bstep H u6 G6. bstep H u7 G7.
+  inversion H; subst s' x; clear H.
+  rewrite (held_by_ren_only _ _ (rl_add_only a _)). apply held_by_setv_same_held with (v := v); auto.
 Qed.
 
-Lemma InvA_frame2 s s' :
-  InvA s -> links_status_kept s s' ->
-  (forall a, (forall v, getv s a = Some v -> v_status v <> StatusActive) -> a_lv (get_agg s' a) = a_lv (get_agg s a)) -> InvA s'.
+Lemma signal_exit_held c a e s s' x : signal_exit c a e s = Ok (s', x) -> forall b, held_by s' b = held_by s b.
 Proof.
-  intros H [K1 K2] Ea a Hna.
-  assert (Hs : forall v, getv s a = Some v -> v_status v <> StatusActive).
-  { intros v Hv. destruct (K1 a v Hv) as [v' [Hv' [_ [_ Es]]]]. rewrite <- Es. apply (Hna v' Hv'). }
-  rewrite (Ea a Hs). apply H; auto.
+  intros H b. unfold signal_exit in H.
+  bstep H v Hv. bstep H u1 G1. bstep H u2 G2. bstep H u3 G3. bstep H cur Hc. bstep H s1 Hs. inversion H; subst s' x; clear H.
+  apply svc_signal_exit_shape in Hs; [|discriminate]. destruct Hs as [v2 [eb [cur2 [Hv2 ->]]]].
+  rewrite (held_by_setv_same_held a v2 _ (w_exits (upd (exits s) eb a) s)); auto.
 Qed.
 
-Lemma rl_remove_fixw a s : fixw (rl_remove a s) = rl_remove a (fixw s).
+Lemma set_online_held a on s s' x : set_online a on s = Ok (s', x) -> forall b, held_by s' b = held_by s b.
 Proof.
-  unfold rl_remove, rl_contains. cbn [rnext rprev rh rt fixw w_glob].
-  repeat match goal with |- context [if ?c then _ else _] => destruct c end; reflexivity.
+  intros H b. unfold set_online in H. bstep H v Hv. unfold get_existing in Hv. apply of_opt_ok in Hv.
+  inversion H; subst s' x; clear H. apply held_by_setv_same_held with (v := v); auto.
 Qed.
 
-Lemma Inv2'_rl_remove a s : Inv2' s -> Inv2' (rl_remove a s).
-Proof. unfold Inv2'. intros H. rewrite rl_remove_fixw. apply Inv2_rl_remove; auto. Qed.
-
-Lemma renew_step acc s la lq a v s1 ar dw acc1 s2 vr acc2 :
-  LoopInv acc s la lq -> getv s a = Some v -> v_status v = StatusActive ->
-  aggs_renew a s = Ok (s1, ar, dw) -> renewal_add acc ar = Ok acc1 ->
-  svc_renew a dw s1 = Ok (s2, vr) -> renewal_add acc1 vr = Ok acc2 ->
-  LoopInv acc2 (rl_remove a s2) la lq /\
-  (forall b, b <> a -> getv (rl_remove a s2) b = getv s b) /\
-  (exists v2, getv (rl_remove a s2) a = Some v2 /\ v_status v2 = StatusActive /\ v_exit v2 = v_exit v).
+Lemma set_beneficiary_held a e bb s s' x : set_beneficiary a e bb s = Ok (s', x) -> forall b, held_by s' b = held_by s b.
 Proof.
-  intros [Hwf HA H2 L1 L2 L3 L4 L5 L6 L7 L8 L9] Hv Hact Hag Hacc1 Hsv Hacc2.
-  (* aggregation *)
-  unfold aggs_renew, agg_renew in Hag. bstep Hag r0 Hr0. destruct r0 as [a' ar0].
-  bstep Hr0 l1 Hl1. destruct l1 as [lv lw]. bstep Hr0 l2 Hl2. destruct l2 as [lv2 lw2].
-  inversion Hr0; subst a' ar0; clear Hr0. inversion Hag; subst s1 ar dw; clear Hag.
-  apply ws_add_ok in Hl1. apply ws_sub_ok in Hl2. cbn [fst snd] in Hl1, Hl2.
-  destruct Hl1 as [Elv Elw]. destruct Hl2 as [Elv2 [Elw2 [Lev Lew]]].
-  set (ag := get_agg s a) in *. set (a' := mkA lv2 lw2 0 0 0 0) in *.
-  (* validation *)
-  unfold svc_renew in Hsv. bstep Hsv v0 Hv0. unfold get_existing in Hv0. apply of_opt_ok in Hv0.
-  change (getv (set_agg a a' s) a) with (getv s a) in Hv0. assert (v0 = v) by congruence. subst v0.
-  bstep Hsv r1 Hr1. destruct r1 as [v1 vr1]. inversion Hsv; subst s2 vr; clear Hsv.
-  unfold v_renew in Hr1. bstep Hr1 l1 Hl1. apply of_opt_ok, safe_sub_some in Hl1. destruct Hl1 as [El1 Lpu].
-  inversion Hr1; subst v1 vr1; clear Hr1. cbn [a_lw a'] in *.
-  set (prevw := calc_weight (v_locked v) (v_multiplier v)) in *.
-  set (mult' := if 0 <? lw2 then MultiplierWithDelegations else Multiplier) in *.
-  set (afterw := calc_weight l1 mult') in *.
-  set (v1 := set_amounts l1 0 0 (v_cooldown v) (v_withdrawable v + v_punlock v) (afterw + lw2) v) in *.
-  destruct (renewal_add_ok _ _ _ Hacc1) as [A1 [A2 [A3 [A4 A5]]]]. cbn [r_inc_v r_inc_w r_dec_v r_dec_w r_qdec] in A1, A2, A3, A4, A5.
-  destruct (renewal_add_ok _ _ _ Hacc2) as [B1 [B2 [B3 [B4 B5]]]]. cbn [r_inc_v r_inc_w r_dec_v r_dec_w r_qdec] in B1, B2, B3, B4, B5.
-  (* the old weight *)
-  destruct (j_w1 _ H2 a v Hv Hact) as [Wold Pold]. change (get_agg (fixw s) a) with ag in Wold. fold prevw in Wold.
-  set (s2 := setv a v1 (set_agg a a' s)) in *.
-  assert (Es2 : s2 = set_agg a a' (setv a v1 s)) by reflexivity.
-  assert (K : links_status_kept s s2).
-  { apply (kept_trans _ (setv a v1 s)); [apply kept_setv with (v := v); auto|apply kept_same_vals; reflexivity]. }
-  (* sums *)
-  pose proof (sum_setv v_locked a v v1 s Hv) as S1. pose proof (sum_setv v_queued a v v1 s Hv) as S2.
-  pose proof (sum_setv v_cooldown a v v1 s Hv) as S3. pose proof (sum_setv v_withdrawable a v v1 s Hv) as S4.
-  pose proof (sum_setv v_weight a v v1 s Hv) as S5.
-  pose proof (sum_set_agg a_lv a a' s eq_refl) as G1. pose proof (sum_set_agg a_pv a a' s eq_refl) as G2.
-  fold ag in G1, G2. cbn [v1 a' v_locked v_queued v_cooldown v_withdrawable v_weight set_amounts a_lv a_pv vals aggs setv set_agg w_vals w_aggs] in S1, S2, S3, S4, S5, G1, G2.
-  assert (Hmult : v_weight v1 = calc_weight (v_locked v1) (v_multiplier v1) + lw2 /\ v_punlock v1 + 1 <= v_locked v1).
-  { cbn [v1 v_weight v_locked v_punlock set_amounts]. split; [|lia]. unfold v_multiplier. cbn [v1 v_weight v_locked set_amounts].
-    unfold afterw, mult', Multiplier, MultiplierWithDelegations. destruct (0 <? lw2) eqn:E.
-    - apply N.ltb_lt in E. rewrite calc_200.
-      destruct (2 * l1 + lw2 =? l1) eqn:E2; [apply N.eqb_eq in E2; lia|]. rewrite calc_200. reflexivity.
-    - apply N.ltb_ge in E. assert (Z0 : lw2 = 0) by lia. rewrite Z0. rewrite (calc_100 l1), !N.add_0_r, N.eqb_refl, calc_100. reflexivity. }
-  destruct Hmult as [Hm1 Hm2].
-  assert (R : ren_only s2 (rl_remove a s2)) by apply rl_remove_only.
-  destruct (same2_ren_only_except _ _ R) as [E1 [E2 [E3 [E4 [E5 E6]]]]].
-  assert (Eglob : g_lv (rl_remove a s2) = g_lv s /\ g_q (rl_remove a s2) = g_q s /\ g_cd (rl_remove a s2) = g_cd s /\
-                  g_wd (rl_remove a s2) = g_wd s /\ eff (rl_remove a s2) = eff s /\ bal (rl_remove a s2) = bal s /\
-                  del_ctr (rl_remove a s2) = del_ctr s /\ act (rl_remove a s2) = act s /\ que (rl_remove a s2) = que s).
-  { rewrite R. repeat split. }
-  destruct Eglob as [F1 [F2 [F3 [F4 [F5 [F6 [F7 [F8 F9]]]]]]]].
-  split; [|split].
-  - constructor.
-    + apply (WF_frame s2); auto; [|apply kept_same_vals; auto]. apply (WF_frame s); auto.
-    + apply (InvA_frame2 s).
-      * exact HA.
-      * apply (kept_trans _ s2); auto. apply kept_same_vals; auto.
-      * intros b Hb. unfold get_agg. rewrite E2. change (aggs s2) with (upd (aggs s) a a'). rewrite get_upd.
-        destruct (a =? b) eqn:E; auto. apply N.eqb_eq in E. subst b. exfalso. apply (Hb v Hv). exact Hact.
-    + apply Inv2'_rl_remove. rewrite Es2. apply (Inv2'_active_upd s a v v1 a'); auto.
-    + rewrite F1, E1, E2. cbn [vals aggs s2 setv set_agg w_vals w_aggs]. lia.
-    + rewrite F2, E1, E2. cbn [vals aggs s2 setv set_agg w_vals w_aggs]. lia.
-    + rewrite F3, E1. cbn [vals s2 setv set_agg w_vals w_aggs]. lia.
-    + rewrite F4, E1, E2, E3. cbn [vals aggs dels s2 setv set_agg w_vals w_aggs]. lia.
-    + rewrite F5, F1, F2, F3, F4. exact L5.
-    + rewrite F5, F6. exact L6.
-    + intros id d. rewrite E3, F7. apply L7.
-    + rewrite E6, E1. cbn [vals s2 setv set_agg w_vals w_aggs g_lw].
-      pose proof (sumf_get_le v_weight (vals s) a v Hv) as Wle.
-      unfold prevw in *. destruct (calc_weight (v_locked v) (v_multiplier v) <? afterw) eqn:Ecmp;
-        [apply N.ltb_lt in Ecmp|apply N.ltb_ge in Ecmp]; lia.
-    + lia.
-  - intros b Hne. unfold getv. rewrite E1. change (get (vals s2) b) with (getv (setv a v1 (set_agg a a' s)) b).
-    rewrite getv_setv_other by auto. reflexivity.
-  - exists v1. unfold getv. rewrite E1. change (get (vals s2) a) with (getv (setv a v1 (set_agg a a' s)) a).
-    rewrite getv_setv_same. auto.
+  intros H b. unfold set_beneficiary in H. bstep H v Hv. apply get_or_revert_ok in Hv.
+  bstep H u1 G1. bstep H u2 G2. inversion H; subst s' x; clear H. apply held_by_setv_same_held with (v := v); auto.
 Qed.
 
-Definition is_active (s : st) (a : N) : Prop := exists v, getv s a = Some v /\ v_status v = StatusActive.
-
-Lemma apply_renewals_ok l : forall acc s la lq s' acc',
-  LoopInv acc s la lq -> (forall a, In a l -> is_active s a) ->
-  apply_renewals l acc s = Ok (s', acc') ->
-  LoopInv acc' s' la lq /\
-  (forall b, ~ In b l -> getv s' b = getv s b) /\
-  (forall b v, getv s b = Some v -> exists v', getv s' b = Some v' /\ v_status v' = v_status v /\ v_exit v' = v_exit v).
+Lemma withdraw_stake_held c a e s s1 x s2 la lq :
+  withdraw_stake c a e s = Ok (s1, x) -> pay_out x s1 = Ok s2 -> WF s la lq ->
+  forall b, held_by s2 b + (if a =? b then x else 0) = held_by s b.
 Proof.
-  induction l as [|a t IH]; intros acc s la lq s' acc' HL Hact H.
-  - cbn in H. inversion H; subst. split; auto. split; auto. intros b v Hv. eauto.
-  - cbn [apply_renewals] in H. bstep H r1 Hr1. destruct r1 as [[s1 ar] dw]. bstep H acc1 Ha1.
-    bstep H r2 Hr2. destruct r2 as [s2 vr]. bstep H acc2 Ha2.
-    destruct (Hact a (or_introl eq_refl)) as [v [Hv Hs]].
-    destruct (renew_step acc s la lq a v s1 ar dw acc1 s2 vr acc2 HL Hv Hs Hr1 Ha1 Hr2 Ha2) as [HL2 [Hoth [v2 [Hv2 [Hs2 Hx2]]]]].
-    destruct (IH acc2 (rl_remove a s2) la lq s' acc' HL2) as [HL3 [Hfr Hst]]; auto.
-    + intros b Hb. destruct (N.eq_dec b a) as [->|Hne]; [exists v2; auto|].
-      destruct (Hact b (or_intror Hb)) as [vb [Hvb Hsb]]. exists vb. rewrite Hoth; auto.
-    + split; auto. split.
-      * intros b Hb. rewrite Hfr by (intros Hx; apply Hb; right; auto). apply Hoth. intros ->. apply Hb. left; auto.
-      * intros b vb Hvb. destruct (N.eq_dec b a) as [->|Hne].
-        -- assert (vb = v) by congruence. subst vb. destruct (Hst a v2 Hv2) as [v3 [Hv3 [E1 E2]]]. exists v3. repeat split; congruence.
-        -- rewrite <- (Hoth b Hne) in Hvb. apply (Hst b vb Hvb).
-Qed.
-
-(* closing the loop: the accumulated renewal is applied to the global counters *)
-Lemma apply_renewal_closes acc s la lq s' :
-  LoopInv acc s la lq -> apply_renewal acc s = Ok s' ->
-  WF s' la lq /\ Inv1 s' /\ InvA s' /\ Inv2 s' /\ (forall b, getv s' b = getv s b) /\ exits s' = exits s /\ blk s' = blk s.
-Proof.
-  intros [Hwf HA H2 L1 L2 L3 L4 L5 L6 L7 L8 L9] H. unfold apply_renewal in H.
-  bstep H l1 Hl1. bstep H l2 Hl2. destruct l2 as [lv lw]. bstep H s1 Hs1.
-  apply ws_add_ok in Hl1. apply ws_sub_ok in Hl2. cbn [fst snd] in Hl1, Hl2. destruct Hl1 as [P1 P2]. destruct Hl2 as [Q1 [Q2 [Q3 Q4]]].
-  unfold remove_queued in Hs1. bstep Hs1 q Hq. inversion Hs1; subst s1; clear Hs1.
-  unfold add_withdrawable in H. bstep H w Hw. inversion H; subst s'; clear H. gfacts. cbn in *.
-  split; [apply (WF_same_vals s); auto|]. split; [|split; [|split; [|auto]]].
-  - constructor; cbn; auto; try lia. rewrite L5. f_equal. lia.
-  - apply (InvA_frame s); auto. apply kept_same_vals; reflexivity.
-  - apply Inv2_split. split; [apply (Inv2'_ext s); auto|]. cbn. lia.
-Qed.
-
-(* ------------------------------------------------------------------ the scheduled exit *)
-
-Record Full (s : st) (la lq : list N) : Prop := mkFull {
-  f_wf : WF s la lq; f_1 : Inv1 s; f_a : InvA s; f_2 : Inv2 s }.
-
-Lemma cond_add_wd x s s' : (if 0 <? x then add_withdrawable x s else Ok s) = Ok s' ->
-  s' = w_glob (g_lv s) (g_lw s) (g_q s) (g_wd s + x) (g_cd s) s.
-Proof.
-  destruct (0 <? x) eqn:E.
-  - unfold add_withdrawable. intros H. bstep H y Hy. inversion H; subst. gfacts. subst. auto.
-  - intros H. inversion H; subst. apply N.ltb_ge in E. assert (x = 0) by lia. subst. rewrite N.add_0_r, w_glob_id. auto.
-Qed.
-Lemma cond_add_cd x s s' : (if 0 <? x then add_cooldown x s else Ok s) = Ok s' ->
-  s' = w_glob (g_lv s) (g_lw s) (g_q s) (g_wd s) (g_cd s + x) s.
-Proof.
-  destruct (0 <? x) eqn:E.
-  - unfold add_cooldown. intros H. bstep H y Hy. inversion H; subst. gfacts. subst. auto.
-  - intros H. inversion H; subst. apply N.ltb_ge in E. assert (x = 0) by lia. subst. rewrite N.add_0_r, w_glob_id. auto.
-Qed.
-
-Lemma exit_step s la lq a v eb s' :
-  Full s la lq -> getv s a = Some v -> v_status v = StatusActive -> v_exit v = Some eb -> eb <= blk s ->
-  (s2 <- (r <- svc_exit_validator a s;; let '(s2a, ve) := r in let '(s2b, ae) := aggs_exit a s2a in apply_exit ve ae s2b);; Ok s2) = Ok s' ->
-  exists l1 l2, la = l1 ++ a :: l2 /\ Full s' (l1 ++ l2) lq /\
-    (forall b x, b <> a -> getv s b = Some x -> exists x', getv s' b = Some x' /\ core x' = core x) /\
-    exits s' = exits s /\ blk s' = blk s /\ mbp s' = mbp s.
-Proof.
-  intros [Hwf Hi HA H2] Hv Hact Hex Heb H. pose proof Hi as [I1 I2 I3 I4 I5 I6 I7].
-  bstep H s2 H0. inversion H; subst s2; clear H. rename H0 into H.
-  bstep H r Hr. destruct r as [s2a ve]. unfold svc_exit_validator in Hr.
-  bstep Hr v0 Hv0. unfold get_existing in Hv0. apply of_opt_ok in Hv0. assert (v0 = v) by congruence. subst v0.
-  unfold v_exit_now in Hr. bstep Hr r1 Hrm. destruct r1 as [s1 e1]. inversion Hr; subst s2a ve; clear Hr.
-  set (v1 := set_status StatusExit (set_amounts 0 0 0 (v_locked v) (v_withdrawable v + v_queued v) 0 v)) in *.
-  assert (Hin : In a la) by (apply (wf_st _ _ _ Hwf a v Hv); auto).
-  destruct (WF_remove true s la lq a v1 s1 e1 v Hwf Hrm Hv Hin eq_refl eq_refl eq_refl)
-    as [l1 [l2 [El [Hwf1 [Hlo [Hga [Hce [Hco Hsum]]]]]]]].
-  destruct (ll_remove_wf true a v1 s s1 e1 la v Hrm (wf_a _ _ _ Hwf) Hin Hv eq_refl eq_refl)
-    as [_ [_ [_ [_ [_ [_ [_ [_ [Hco' _]]]]]]]]].
-  exists l1, l2. split; auto.
-  assert (Eg : forall (T : Type) (X : st -> T), X (w_vals (vals s1) (w_act (act s1) (w_que (que s1) s))) = X s1) by (intros; rewrite <- Hlo; auto).
-  set (sr := rl_remove a s1) in *.
-  assert (R : ren_only s1 sr) by apply rl_remove_only.
-  destruct (same2_ren_only_except _ _ R) as [E1 [E2 [E3 [E4 [E5 E6]]]]].
-  unfold aggs_exit in H. cbn zeta in H.
-  assert (Eag : get_agg sr a = get_agg s a).
-  { unfold get_agg. rewrite E2, <- (Eg _ aggs). reflexivity. }
-  rewrite Eag in H. set (ag := get_agg s a) in *.
-  set (sx := set_agg a agg0 sr) in *.
-  (* weights *)
-  destruct (j_w1 _ H2 a v Hv Hact) as [Wold Pold]. fold ag in Wold.
-  assert (Cold : v_cooldown v = 0) by (apply (j_cd _ H2 a v Hv); rewrite Hact; discriminate).
-  unfold apply_exit in H. cbn [e_v e_w e_qdec] in H.
-  bstep H tot Htot. apply ws_add_ok in Htot. cbn [fst snd] in Htot. destruct tot as [tv tw]. cbn [fst snd] in *. destruct Htot as [Etv Etw].
-  bstep H sa Ha. bstep H sb Hb. bstep H sc Hc.
-  assert (Htv : (0 <? tv) = true) by (apply N.ltb_lt; lia). rewrite Htv in Ha.
-  unfold remove_locked in Ha. bstep Ha lw Hlw. destruct lw as [nlv nlw]. inversion Ha; subst sa; clear Ha.
-  apply ws_sub_ok in Hlw. cbn [fst snd] in Hlw. destruct Hlw as [Enlv [Enlw [Llv Llw]]].
-  apply cond_remove_q in Hb as [-> Lq]. apply cond_add_cd in Hc as ->. apply cond_add_wd in H as ->.
-  (* projections of sx *)
-  assert (Px : vals sr = vals s1 /\ aggs sr = aggs s /\ dels sr = dels s /\ exits sr = exits s /\ blk sr = blk s /\
-               g_lv sr = g_lv s /\ g_lw sr = g_lw s /\ g_q sr = g_q s /\ g_wd sr = g_wd s /\ g_cd sr = g_cd s /\
-               eff sr = eff s /\ bal sr = bal s /\ del_ctr sr = del_ctr s /\ act sr = act s1 /\ que sr = que s1 /\ mbp sr = mbp s).
-  { rewrite R. cbn.
-    rewrite <- (Eg _ aggs), <- (Eg _ dels), <- (Eg _ exits), <- (Eg _ blk), <- (Eg _ g_lv), <- (Eg _ g_lw), <- (Eg _ g_q), <- (Eg _ g_wd),
-      <- (Eg _ g_cd), <- (Eg _ eff), <- (Eg _ bal), <- (Eg _ del_ctr), <- (Eg _ mbp). cbn. repeat split. }
-  destruct Px as [X1 [X2 [X3 [X4 [X5 [X6 [X7 [X8 [X9 [X10 [X11 [X12 [X13 [X14 [X15 X16]]]]]]]]]]]]]]].
-  set (s' := w_glob _ _ _ _ _ (w_glob _ _ _ _ _ (w_glob _ _ _ _ _ (w_glob _ _ _ _ _ sx)))) in *.
-  pose proof (Hsum v_locked core_fun_locked) as S1. pose proof (Hsum v_queued core_fun_queued) as S2.
-  pose proof (Hsum v_cooldown core_fun_cooldown) as S3. pose proof (Hsum v_withdrawable core_fun_withdrawable) as S4.
-  pose proof (Hsum v_weight core_fun_weight) as S5.
-  cbn [v1 v_locked v_queued v_cooldown v_withdrawable v_weight set_status set_amounts] in S1, S2, S3, S4, S5.
-  assert (A1 : sumf a_lv (upd (aggs s) a agg0) + a_lv ag = sumf a_lv (aggs s)).
-  { pose proof (sum_set_agg a_lv a agg0 s eq_refl) as A. cbn in A. fold ag in A. lia. }
-  assert (A2 : sumf a_pv (upd (aggs s) a agg0) + a_pv ag = sumf a_pv (aggs s)).
-  { pose proof (sum_set_agg a_pv a agg0 s eq_refl) as A. cbn in A. fold ag in A. lia. }
-  assert (Gv : forall b, getv s' b = getv s1 b) by (intros; unfold getv, s'; cbn; rewrite ?X1, ?E1; reflexivity).
-  assert (Crel : core_rel s s' a).
-  { intros b Hne. rewrite Gv. split; [apply (proj1 (Hco' b Hne))|intros y Hy; apply (Hco b y Hne Hy)]. }
-  destruct (core_eq _ _ Hce) as [Cs [Cc [Cw [Cl [Cp [Cq Cx]]]]]].
-  split; [|split; [|split; [|split]]].
-  - constructor.
-    + apply (WF_same_vals s1); auto; unfold s'; cbn; auto.
-    + unfold s'. constructor; cbn; rewrite ?X1, ?X2, ?X3, ?X6, ?X7, ?X8, ?X9, ?X10, ?X11, ?X12, ?X13 in *; cbn in *; try lia; auto.
-      rewrite I5. f_equal. lia.
-    + intros b Hb. unfold get_agg, s'. cbn. rewrite X2, get_upd. destruct (a =? b) eqn:E; [reflexivity|].
-      apply N.eqb_neq in E. apply HA. intros y Hy. destruct (Hco b y (fun e => E (eq_sym e)) Hy) as [y' [Hy' Ec]].
-      rewrite <- (core_status _ _ Ec). apply (Hb y'). rewrite Gv. exact Hy'.
-    + apply (Inv2_to_exit s s' a v e1); auto.
-Show. Abort.
+  intros H Hpay Hwf b. pose proof H as Hamt. unfold withdraw_stake in H.
+  bstep H v Hv. apply get_or_revert_ok in Hv. bstep H u1 G1.
+  destruct (withdraw_stake_amount c a e s s1 x v Hamt Hv) as [Ex _].
+  bstep H r Hr. destruct r as [[[sa wd] q] cd].
+  bstep H sb Hb. bstep H sc Hc. bstep H sd Hd. bstep H se He. bstep H t1 Ht1. bstep H tot Htot. bstep H u2 Hcb.
+  inversion H; subst s1 tot; clear H.
+  assert (M : money_only sb s2).
+  { eapply money_only_trans; [eapply (mo_cond _ (remove_withdrawable wd)); [apply mo_remove_withdrawable|exact Hc]|].
+    eapply money_only_trans; [eapply (mo_cond _ (remove_queued q)); [apply mo_remove_queued|exact Hd]|].
+    eapply money_only_trans; [eapply (mo_cond _ (remove_cooldown cd)); [apply mo_remove_cooldown|exact He]|].
+    eapply mo_pay_out; eauto. }
+  rewrite (money_only_held _ _ M). clear M Hc Hd He Hpay Hcb Ht1 Htot.
+  unfold svc_withdraw_stake in Hr. destruct (v_status v =? StatusQueued) eqn:Est.
+  - apply N.eqb_eq in Est. bstep Hr r1 Hrm. destruct r1 as [s1' e1]. inversion Hr; subst sa wd q cd; clear Hr.
+    set (v1 := set_status StatusExit (set_amounts (v_locked v) (v_punlock v) 0 (v_cooldown v) 0 (v_weight v) v)) in *.
+    assert (Hin : In a lq) by (apply (wf_st _ _ _ Hwf a v Hv); auto).
+    destruct (WF_remove false s la lq a v1 s1' e1 v Hwf Hrm Hv Hin eq_refl eq_refl eq_refl)
+      as [l1 [l2 [El [Hwf1 [Hlo [Hga [Hce [Hco Hsum]]]]]]]].
+    assert (M : money_only (set_agg a agg0 s1') sb).
+    { unfold aggs_exit in Hb. cbn [e_qdec] in Hb. destruct (0 <? a_pv (get_agg s1' a)).
+      - bstep Hb s1b Hq. eapply money_only_trans; [eapply mo_remove_queued; eauto|eapply mo_add_withdrawable; eauto].
+      - inversion Hb. apply money_only_refl. }
+    rewrite (money_only_held _ _ M). change (held_by (set_agg a agg0 s1') b) with (held_by s1' b).
+    destruct (ll_remove_held _ _ _ _ _ _ Hrm) as [Ho _].
+    destruct (a =? b) eqn:E.
+    + apply N.eqb_eq in E. subst b. unfold held_by. rewrite Hga, Hv.
+      assert (held e1 = held v1) by (apply core_held; auto).
+      rewrite H, Ex. unfold held. cbn. Show. Abort.
